@@ -40,6 +40,7 @@ package openid
 //@ func (*jwt.ValidationError).Has
 //@   pure
 //@ func (*jwt.IDTokenClaims).ToMapClaims
+//@   trusted
 //@   ensures result != nil
 //@ func github.com/ory/go-convenience/stringslice.Unique(i)
 //@   ensures sameset(result, i)
@@ -49,6 +50,7 @@ package openid
 
 // GenerateIDToken: the claims object of the session is completed in place and then signed.
 //@ func (DefaultStrategy).GenerateIDToken
+//@   modifies fields(cast(requester.GetSession(), Session).IDTokenClaims())
 //@   let sess = cast(requester.GetSession(), Session)
 //@   let claims = cast(requester.GetSession(), Session).IDTokenClaims()
 //@   let form = requester.GetRequestForm()
@@ -85,3 +87,16 @@ package openid
 //@   ensures [C14.max-age] err == nil && parse_ok(formget(form, "max_age")) && parse_int(formget(form, "max_age")) > 0 ==> claims.AuthTime != 0 && claims.RequestedAt != 0 && claims.AuthTime + 1000000000 * parse_int(formget(form, "max_age")) >= claims.RequestedAt
 //@   ensures [C14.id-token-hint-subject] err == nil && formget(form, "id_token_hint") != "" ==> typeis(decoded(v.Strategy, formget(form, "id_token_hint")).Claims["sub"], string) && unbox(decoded(v.Strategy, formget(form, "id_token_hint")).Claims["sub"], string) == claims.Subject
 //@   ensures [C13.public-prompt-none-needs-secure-redirect] err == nil && req.GetClient().IsPublic() && insl(prompts, "none") ==> call(v.Config.GetRedirectSecureChecker(ctx), ctx, req.GetRedirectURI())
+
+// ---------------------------------------------------------------- helpers that put the ID token into a response
+//@ interface OpenIDConnectTokenStrategy.GenerateIDToken
+//@   modifies everything
+//@   ensures requester.GetClient() == old(requester.GetClient()) && requester.GetSession() == old(requester.GetSession())
+//@ func (*IDTokenHandleHelper).generateIDToken
+//@   requires i != nil && i.IDTokenStrategy != nil && fosr != nil
+//@   modifies everything
+//@   ensures fosr.GetClient() == old(fosr.GetClient()) && fosr.GetSession() == old(fosr.GetSession())
+//@ func (*IDTokenHandleHelper).IssueImplicitIDToken
+//@   requires i != nil && i.IDTokenStrategy != nil && ar != nil && resp != nil
+//@   modifies everything
+//@   ensures [C13.id-token-param] err == nil ==> ("id_token" in resp.GetParameters())
